@@ -69,6 +69,7 @@ def run(ctx):
     payloads.append({"primes": PRIMES, "force": force})
     for lw in laws:
         payloads.append({"primes": PRIMES, "laws": [lw]})
+    payloads.append({"primes": PRIMES, "tolerance_kept": True})
     for res in ctx.harness_parallel("rk_replay.py", payloads, procs=12, timeout=3000):
         ctx.absorb(res)
     ctx.exhaustive = False
